@@ -485,9 +485,9 @@ def wire_names_only_for_exported(ctx):
         raise AnchorMissing('no store into accessiblename2attr found')
     for fi, n in writers:
         ctx.analysed(fi)
-        guard = [a for a in ancestors(n) if isinstance(a, ast.If) and src(a.test).endswith('.export')]
-        keyed = src(n.slice).endswith('.export')
-        same = bool(guard) and src(guard[0].test) == src(n.slice)
+        guard = [a for a in ancestors(n) if isinstance(a, ast.If) and src(resolved(a.test, fi.node)).endswith('.export')]
+        keyed = src(resolved(n.slice, fi.node)).endswith('.export')
+        same = bool(guard) and src(resolved(guard[0].test, fi.node)) == src(resolved(n.slice, fi.node))
         ok = fi.qualname == 'frappy.modulebase.Module._add_accessible' and keyed and same
         ctx.check(ok, f'{fi.qualname}:store accessiblename2attr', n, 'single writer, guarded by and keyed by accessible.export',
                   'a wire name is registered without the export guard (or by another writer / under another key): '
